@@ -171,7 +171,7 @@ def run(tier: str, seed: int) -> int:
     # traces of those searches are validated step by step against the same specification
     from .. import searchmodel
 
-    jobs, rejected, nmc = searchmodel.campaign(run_, tier, seed, want_mc=True)
+    jobs, rejected, nmc = searchmodel.campaign(run_, tier, seed, want_mc=True, focus="resume")
     for job, r in rejected:
         run_.violation(r["clause"], "search-loop/" + job["sig"], {"reject": r, "trace": {"tid": job["tid"], "events": job["events"]}, "universe": job["universe"]})
     run_.extra["universes_model_checked_for_all_slicings"] = nmc
